@@ -100,6 +100,18 @@ def replay_jsonconv(flags, shape, k0, k1):
     return replay_json_converted(flags, shape, k0, k1)
 
 
+def attr_history(name: str, first_setting: bool, setting: bool, first_kind: int) -> bool:
+    """
+    pre: 1 <= len(name) <= 4 and 0 <= first_kind < 3
+    post: _
+    """
+    return filter_history_ok(name, first_setting, setting, first_kind)
+
+
+def replay_attr_history(name, first_setting, setting, first_kind):
+    return replay_filter_history(name, first_setting, setting, first_kind)
+
+
 def attr_filter(name: str, on_partial: bool, setting: bool, as_bytes: bool) -> bool:
     """
     pre: len(name) <= 4
@@ -436,6 +448,7 @@ def run(rep: C.Report) -> None:
             H,
             {
                 "^loader_": dict(name="Ob1 lua_loader never probes a path outside the Lua package directory", functions=["luaexec.py:lua_loader"], bounds=f"module names of 1..3 symbolic chars over {{. / : space a newline backslash}}" + ("" if quick else ", 4..5 over {. / a}") + f"; runs of 2..{5 if quick else 7} dots, slashes or colons followed by {2 if quick else 3} symbolic chars over {{. / a}}"),
+                "^attr_history": dict(name="Ob8 the attribute filter's decision does not depend on earlier requests (no per-name memo across objects)", functions=["luaexec.py:initialize_lua.filter_attribute_access with the state it closes over (AST slice, re-created per case)"], bounds="two consecutive requests: name <= 4 symbolic chars (full Unicode), first on a tuple / exception / function, second on a context-bound helper; setting flags symbolic"),
                 "^jsonconv": dict(name="Ob7 mw.text.jsonDecode hands only Lua tables and scalars to Lua (no Python dict / list at any depth)", functions=["luaexec.py:mw_text_jsondecode.recurse (AST slice, lupa's table_from replaced by a shallow stub)"], bounds="6 nested JSON shapes x 4 key spellings x 4 key spellings x flags 0..3 (solver-driven case split)"),
                 "^attr_filter": dict(name="Ob2 attribute filter refuses underscore names, non-str names and attributes of context-bound helpers", functions=["luaexec.py:initialize_lua.filter_attribute_access (AST slice)"], bounds="attribute name <= 4 symbolic chars (full Unicode); object kind, setting flag, str/bytes symbolic"),
             },
